@@ -101,6 +101,16 @@ Theorem C08_reload_failback_after_burial : forall event_height best,
   best >= confirmation_threshold event_height OnchainEventKind_Other 0 None.
 Proof. exact reload_burial. Qed.
 
+Theorem C08_holding_cell_timeout : forall out h,
+  holding_cell_htlc_timed_out out (holding_cell_cltv_limit h) = true <->
+  out <= h + LATENCY_GRACE_PERIOD_BLOCKS.
+Proof. exact holding_cell_mirrors_forward_check. Qed.
+
+Theorem C08_holding_cell_consistent_with_forward : forall h out inn d,
+  check_incoming_htlc_cltv h out inn d = ROk tt ->
+  holding_cell_htlc_timed_out out (holding_cell_cltv_limit h) = false.
+Proof. exact holding_cell_consistent_with_forward. Qed.
+
 Example C08_call_sites_nonempty : forward_cltv_min_delta_sites <> [].
 Proof. discriminate. Qed.
 
